@@ -108,6 +108,45 @@ Section Props.
         intros d c p c' ps E; inversion E; subst.
       eapply token_ok_window; eauto.
     Qed.
+
+    (* every step along a valid chain, not only the first *)
+    Fixpoint steps (a : authz) : list (cap * authz) :=
+      match a with
+      | Authz d c (p :: _) => (c, p) :: steps p
+      | Authz d c [] => []
+      end.
+
+    Definition step_holds (ds : desc) (x : cap * authz) : Prop :=
+      let '(c, pa) := x in
+      match pa with Authz p c' _ =>
+        exists tp c0, tok U p = Some tp /\ window_ok C tp /\ In c0 (t_caps tp) /\
+          resolve_ability (r_can c0) (can c) = can c' /\
+          ds_nb ds (inherit (nb c) (r_nb c0)) = Some (nb c') /\ ds_derives ds c c' = true
+      end.
+
+    Theorem chain_all_steps ds a :
+      chain_ok U C claim_prev P_prev ds a -> Forall (step_holds ds) (steps a).
+    Proof.
+      induction 1 as [d c CI | d c p c' ps t tp sibs T Tp L Al TO ST CH IH]; cbn [steps].
+      - constructor.
+      - constructor; [|exact IH]. cbn [step_holds].
+        destruct ST as [tp' [c0 [Tp' [Hin [RC DV]]]]].
+        destruct (token_ok_window _ _ TO) as [t2 [T2 W]].
+        assert (t2 = tp') by congruence. subst t2.
+        exists tp', c0. apply resolve_cap_inv in RC. destruct RC as [RA [_ [_ [_ NB]]]].
+        repeat split; auto; apply W.
+    Qed.
+
+    (* returned authorizations are paths: every node has at most one proof *)
+    Fixpoint is_path (a : authz) : Prop :=
+      match a with
+      | Authz _ _ [] => True
+      | Authz _ _ [p] => is_path p
+      | _ => False
+      end.
+
+    Lemma chain_is_path ds a : chain_ok U C claim_prev P_prev ds a -> is_path a.
+    Proof. induction 1; cbn [is_path]; auto. Qed.
   End Level.
 
   (* C03: a token passes Validate only inside its window *)
@@ -273,6 +312,60 @@ Section Props.
     unfold access. cbn [claim]. unfold claim_body. intros H SO Hc. rewrite SO in H.
     destruct (claim_loop U C (authorize U C (claim U C n) n ds) (select_top ds ss) false false) as [r ev'] eqn:CL.
     inversion H; subst. eapply claim_loop_reports; eauto.
+  Qed.
+
+  (* ---------------------------------------------------------------- *)
+  (* the statements above, for what Access returns                        *)
+
+  Theorem access_steps n ds inv a :
+    fst (access U C n ds inv) = AOk a ->
+    exists n', n = S n' /\ Forall (step_holds ds) (steps a) /\
+               is_path a /\
+               exists d c ps t, a = Authz d c ps /\ d = inv /\ tok U d = Some t /\ window_ok C t.
+  Proof.
+    intros H. destruct n as [|n']; [discriminate|]. exists n'. split; [reflexivity|].
+    pose proof (access_sound U C Hres (S n') ds inv a H) as PS. cbn [P] in PS.
+    destruct PS as [d [c [ps [t [c0 [E [Hin [TO [T [Hc [PC [CH RV]]]]]]]]]]]].
+    split; [eapply chain_all_steps; eauto|]. split; [eapply chain_is_path; eauto|].
+    exists d, c, ps, t. repeat split; auto.
+    - destruct Hin as [<-|[]]. reflexivity.
+    - destruct (token_ok_window _ _ _ _ TO) as [t' [T' W]]. assert (t' = t) by congruence. subst. apply W.
+    - destruct (token_ok_window _ _ _ _ TO) as [t' [T' W]]. assert (t' = t) by congruence. subst. apply W.
+  Qed.
+
+  (* C05: a checker that rejects every authorization containing a revoked delegation
+     guarantees that no returned authorization contains one *)
+  Theorem access_no_revoked (R : link -> Prop) n ds inv a :
+    (forall x, (exists l, In l (map fst (path_of x)) /\ R l) -> revoked C x = true) ->
+    fst (access U C n ds inv) = AOk a -> forall l, In l (map fst (path_of a)) -> ~ R l.
+  Proof.
+    intros HR H l Hl HRl.
+    destruct (access U C n ds inv) as [r ev] eqn:E. cbn [fst] in H. subst r.
+    destruct (access_checked n ds inv a ev E) as [_ NR].
+    rewrite (HR a) in NR; [discriminate|]. exists l. auto.
+  Qed.
+
+  (* C04: a failing session with failed proofs rejects the token whatever the key resolver says *)
+  Theorem session_escalation claim_prev d sibs t e ev :
+    tok U d = Some t -> is_expired (t_exp t) (now C) = false -> is_too_early (t_nbf t) (now C) = false ->
+    is_key_str (t_iss t) = false -> did_eqb (t_iss t) (v_did (authority C)) = false ->
+    claim_prev (attest_desc (v_did (authority C)) (d_link d)) (session_candidates U d sibs) = (AErr e, ev) ->
+    has_failed e = true ->
+    fst (validate U C claim_prev d sibs) = VEscalation.
+  Proof.
+    intros T E1 E2 K A CP HF. unfold validate. rewrite T, E1, E2.
+    unfold verify_authorization. unfold is_key_str in K. rewrite K, A.
+    unfold verify_session. rewrite CP. rewrite HF. reflexivity.
+  Qed.
+
+  (* C04: an attestation naming another token, another resource or another ability is not a candidate *)
+  Theorem attest_other_rejected auth l c0 :
+    (r_can c0 <> attest_can \/ r_with c0 <> did_str auth \/ r_nb c0 <> NbMap [(proof_key, VLink l)]) ->
+    parse_cap (attest_desc auth l) c0 = None.
+  Proof.
+    intros H. destruct (parse_cap (attest_desc auth l) c0) as [c|] eqn:PC; [|reflexivity].
+    apply attest_parse_inv in PC. destruct PC as [A [B [D _]]].
+    destruct H as [H|[H|H]]; contradiction.
   Qed.
 
 End Props.
